@@ -275,7 +275,7 @@ E2E_MODES = {"regular": ("regular", modes.HttpProxy), "transparent": ("transpare
 class Check(PropertyCheck):
     prop = "C19"
     design_ref = "§5 C19"
-    level_text = ("Lean theorems (23) over the model of NextLayer._ignore_connection/_get_host_header/_get_client_hello/_next_layer, "
+    level_text = ("Lean theorems (25) over the model of NextLayer._ignore_connection/_get_host_header/_get_client_hello/_next_layer, "
                   "NextLayer buffering+replay and the TCP/UDP relay, for ALL inputs: verdict_rule / allow_semantics / ignore_semantics "
                   "(the verdict is exactly the documented rule over the candidate host names; regex search is a parameter), "
                   "candidates_cover_destinations; host_header_agrees_mixed (regex scanner = RFC 9112 field syntax on EVERY well-formed "
@@ -293,7 +293,10 @@ class Check(PropertyCheck):
                   "order) and ignored_is_passthrough_to_the_end (every admissible history that ends with the relay finished: "
                   "everything received before, between and after the half-closes was delivered in order exactly once, both sides "
                   "unreadable) with half_close_propagation (EOF -> half-close of the other side once, full close when neither side "
-                  "is readable); not_excluded_is_intercepted / passthrough_only_if_excluded; tls_ignore_passthrough. Model tied to "
+                  "is readable); not_excluded_is_intercepted / passthrough_only_if_excluded; verdict_uses_options_in_force / "
+                  "verdict_history_independent (ONE addon instance, any history of ignore_hosts/allow_hosts updates and earlier "
+                  "connections: every decision is the decision under the options in force, nothing else is carried over); "
+                  "tls_ignore_passthrough. Model tied to "
                   "the code at unit level (three functions + stack class over all modes/schemes/options) and end to end through "
                   "world.py with the real NextLayer addon in regular-CONNECT, transparent (tcp+udp), reverse and SOCKS5 mode, eager "
                   "and lazy connection strategy (stack class + per-step opens, bytes to both peers, closes, tcp_*/udp_* hooks).")
@@ -330,7 +333,7 @@ class Check(PropertyCheck):
             "data/close/connect events. distinct = distinct case; non-trivial = rules set and a destination present.")
     budget = {"quick": 3600, "thorough": 200000}
     time_budget = {"quick": 18, "thorough": 420}
-    fingerprints = ["mitmproxy.addons.next_layer:NextLayer._ignore_connection", "mitmproxy.addons.next_layer:NextLayer._get_host_header",
+    fingerprints = ["mitmproxy.addons.next_layer:NextLayer", "mitmproxy.addons.next_layer:NextLayer._ignore_connection", "mitmproxy.addons.next_layer:NextLayer._get_host_header",
                     "mitmproxy.addons.next_layer:NextLayer._get_client_hello", "mitmproxy.addons.next_layer:NextLayer._next_layer",
                     "mitmproxy.addons.next_layer:NextLayer._setup_reverse_proxy", "mitmproxy.addons.next_layer:NextLayer._setup_explicit_http_proxy",
                     "mitmproxy.addons.next_layer:NextLayer._is_destination_in_hosts", "mitmproxy.addons.next_layer:_starts_like_quic",
@@ -518,6 +521,38 @@ class Check(PropertyCheck):
         return {"kind": "e2e", "mode": mode, "scheme": rng.pick(["http", "tcp", "https", "tls"]) if not udp else "udp", "strategy": strategy,
                 "cfg": c, "flight": [hx(s) for s in segs], "script": script, "intent": self.ser_intent(intent)}
 
+    def hist_case(self, rng, n_conn=None):
+        """a HISTORY on ONE NextLayer instance: option updates (ignore_hosts / allow_hosts set -> other, set -> unset,
+        unset -> set, one key or both per update) interleaved with connections to a small pool of destinations, so that
+        the same destination is decided again after the options changed"""
+        pool = []
+        for _ in range(rng.randint(2, 3)):
+            tcp = rng.chance(0.85)
+            host = rng.pick(self.HOSTS[:4] + ["a.example"])
+            if tcp and rng.chance(0.5):
+                d = b"\r\n".join([rng.pick(self.REQLINES[:7]), rng.pick(self.NAMES) + b":" + rng.pick(self.OWS) + host.encode()]) + b"\r\n\r\n"
+                intent = "spec"
+            else:
+                d = tls_hello(host, dtls=not tcp) if rng.chance(0.7) else tls_hello_records(host, 2) if tcp else tls_hello(host, dtls=True)
+                intent = {"sni": host}
+            addr = [rng.pick(["192.0.2.9", "198.51.100.7", host]), rng.pick([80, 443, 8000])]
+            pool.append({"cfg": {"tcp": int(tcp), "wg": 0, "peer": None, "addr": addr, "csni": None, "top": rng.pick(["other", "other", "rev-tcp", "rev-http"]),
+                                 "show": 0, "rawtcp": 1, "tcp_hosts": [], "udp_hosts": [], "alpn": None, "tlsver": None},
+                         "dc_hex": hx(d), "ds_hex": "-", "intent": self.ser_intent(intent), "names": [host, addr[0]]})
+        names = [n for d in pool for n in d["names"]]
+        for d in pool: d.pop("names")
+
+        def pats(): return [self.pats_for(rng, names) for _ in range(rng.randint(1, 2))]
+        steps = [{"op": "set", **rng.pick([{"ignore": pats()}, {"allow": pats()}, {"ignore": pats(), "allow": pats()}, {}])}]
+        for _ in range(n_conn or rng.randint(3, 7)):
+            if rng.chance(0.45):
+                upd = {}
+                for key in rng.pick([["ignore"], ["allow"], ["allow"], ["ignore", "allow"]]):
+                    upd[key] = [] if rng.chance(0.3) else pats()
+                steps.append({"op": "set", **upd})
+            steps.append(dict(rng.pick(pool), op="conn"))
+        return {"kind": "hist", "steps": steps}
+
     @staticmethod
     def ser_intent(intent):
         if isinstance(intent, dict): return {"sni": intent.get("sni")}
@@ -562,8 +597,17 @@ class Check(PropertyCheck):
             step = 1 if tier == "thorough" else 3
             for cut in range(1, len(base[0]), step):
                 yield self.e2e_case(rng, cuts=cut, base=base)
+        ex = {"s": 0, "e": 0, "lit": "example.com"}; oth = {"s": 0, "e": 0, "lit": "other.example"}
+        conn = {"op": "conn", "cfg": {"tcp": 1, "wg": 0, "peer": None, "addr": ["192.0.2.9", 443], "csni": None, "top": "other", "show": 0, "rawtcp": 1,
+                                      "tcp_hosts": [], "udp_hosts": [], "alpn": None, "tlsver": None},
+                "dc_hex": hx(tls_hello("example.com")), "ds_hex": "-", "intent": {"sni": "example.com"}}
+        for key in ("allow", "ignore"):
+            for first, second in (([ex], [oth]), ([oth], [ex]), ([ex], []), ([], [ex]), ([oth], []), ([], [oth])):
+                yield {"kind": "hist", "steps": [{"op": "set", key: first}, conn, {"op": "set", key: second}, conn, {"op": "set", key: first}, conn]}
         while True:
-            k = rng.weighted([(30, "hh"), (30, "ig"), (20, "nl"), (12, "e2e"), (3, "tlsig")])
+            k = rng.weighted([(28, "hh"), (28, "ig"), (18, "nl"), (12, "e2e"), (3, "tlsig"), (11, "hist")])
+            if k == "hist":
+                yield self.hist_case(rng); continue
             if k == "hh":
                 d = self.head(rng, self.host_value(rng))
                 full = d
@@ -598,6 +642,7 @@ class Check(PropertyCheck):
         if k in ("ig", "nl"): return self.impl_unit(case)
         if k == "e2e": return self.impl_e2e(case)
         if k == "tlsig": return self.impl_tlsig(case)
+        if k == "hist": return self.impl_hist(case)
         raise Skip()
 
     def impl_hh(self, case):
@@ -724,6 +769,45 @@ class Check(PropertyCheck):
             self._stash[json.dumps(case, sort_keys=True)] = obs
             return obs
 
+    def impl_hist(self, case):
+        """all steps on ONE NextLayer instance and one options object"""
+        nl = NextLayer()
+        out = []
+        with taddons.context(nl) as tctx:
+            for st in case["steps"]:
+                if st["op"] == "set":
+                    kw = {}
+                    if "ignore" in st: kw["ignore_hosts"] = [pat_regex(p) for p in st["ignore"]]
+                    if "allow" in st: kw["allow_hosts"] = [pat_regex(p) for p in st["allow"]]
+                    tctx.configure(nl, **kw)         # `updated` holds exactly these keys
+                    continue
+                cfg = st["cfg"]
+                tctx.options.show_ignored_hosts = bool(cfg.get("show")); tctx.options.rawtcp = bool(cfg.get("rawtcp", 1))
+                ctx = make_unit_context(tctx, cfg)
+                dc, ds = unhx(st["dc_hex"]), unhx(st["ds_hex"])
+                try:
+                    d = int(bool(nl._ignore_connection(ctx, dc, ds)))
+                except NeedsMoreData:
+                    d = "need"
+                try:
+                    stack = stack_of(nl._next_layer(ctx, dc, ds))
+                except NeedsMoreData:
+                    stack = "need"
+                out.append({"dec": d, "stack": stack})
+        return {"conns": out}
+
+    @staticmethod
+    def hist_options(case):
+        """options in force at every connection step, from the case's inputs alone"""
+        ig, al, res = [], [], []
+        for st in case["steps"]:
+            if st["op"] == "set":
+                if "ignore" in st: ig = st["ignore"]
+                if "allow" in st: al = st["allow"]
+            else:
+                res.append((st, ig, al))
+        return res
+
     def impl_tlsig(self, case):
         from mitmproxy.proxy.layers.tls import TlsClienthelloHook
         nl = NextLayer()
@@ -803,6 +887,22 @@ class Check(PropertyCheck):
             return fails
         if k == "e2e":
             return self.oracle_e2e(case, obs)
+        if k == "hist":
+            # every connection is judged by the allow/ignore rules in force when it is decided
+            for i, ((st, ig, al), o) in enumerate(zip(self.hist_options(case), obs["conns"])):
+                cfg = dict(st["cfg"], ignore=ig, allow=al)
+                exp = self.expect({"cfg": cfg, "intent": st["intent"], "ds_hex": st["ds_hex"]}, unhx(st["dc_hex"]))
+                if exp is None: continue
+                if o["dec"] == "need":
+                    fails.append(f"history: connection #{i}: no verdict on a complete first flight")
+                elif o["dec"] != exp:
+                    fails.append(f"history: connection #{i} to {st['cfg']['addr']}: options in force ignore={[pat_regex(p) for p in ig]} "
+                                 f"allow={[pat_regex(p) for p in al]} => {'excluded' if exp else 'not excluded'}, _ignore_connection says {o['dec']}")
+                elif o["stack"] != "need":
+                    relay = o["stack"] in (["tcp-ignore"], ["udp-ignore"])
+                    if bool(exp) != relay:
+                        fails.append(f"history: connection #{i}: verdict {'excluded' if exp else 'not excluded'} but stack {o['stack']}")
+            return fails
         if k == "tlsig":
             if obs["errors"]: fails.append(f"layer raised: {obs['errors'][:1]}")
             sent = b"".join(unhx(x) for x in obs["toServer"])
@@ -1016,6 +1116,15 @@ class Check(PropertyCheck):
             return ["run " + " ".join(self.cfg_fields(cfg, first if whole.startswith(first) else whole)) + f" {obs['connected']} " + " ".join(obs["events"])]
         if k == "tlsig":
             return ["tls " + " ".join([str(case["dtls"])] + case["flight"] + case["after"])]
+        if k == "hist":
+            lines = ["hreset"]
+            for st in case["steps"]:
+                if st["op"] == "set":
+                    lines.append("hset %s %s" % (self.pats_field(st["ignore"]) if "ignore" in st else "=", self.pats_field(st["allow"]) if "allow" in st else "="))
+                else:
+                    cfg = dict(st["cfg"], ignore=[], allow=[])      # the pattern fields come from the model's addon state
+                    lines.append("hconn " + " ".join(self.cfg_fields(cfg, unhx(st["dc_hex"]))) + f" {st['dc_hex']} {st['ds_hex']}")
+            return lines
         return None
 
     def model_obs(self, case, replies):
@@ -1034,6 +1143,8 @@ class Check(PropertyCheck):
         if k == "tlsig":
             st, _, l = replies[0].partition(" ")
             return [st, l]
+        if k == "hist":
+            return [r for r in replies if r != "ok"]
         return replies
 
     @staticmethod
@@ -1056,6 +1167,8 @@ class Check(PropertyCheck):
             return {"stack": stack, "steps": obs["steps"]}
         if k == "tlsig":
             return [obs["state"], ",".join(obs["toServer"]) if obs["toServer"] else "."]
+        if k == "hist":
+            return ["need" if (o["dec"] == "need" or o["stack"] == "need") else "ok %d %s" % (o["dec"], ",".join(o["stack"])) for o in obs["conns"]]
         return obs
 
     # ================================================================================ bookkeeping
@@ -1087,6 +1200,15 @@ class Check(PropertyCheck):
             if "err" in obs["events"]: out.append("e2e:connect-failed")
         elif k == "tlsig":
             out.append("tlsig:" + obs["state"])
+        elif k == "hist":
+            opts = self.hist_options(case)
+            out.append("hist:conns=%d" % min(len(opts), 8))
+            seen = {}
+            for (st, ig, al), o in zip(opts, obs["conns"]):
+                key = (st["dc_hex"], json.dumps(st["cfg"]["addr"]))
+                if key in seen and seen[key] != (json.dumps(ig), json.dumps(al)): out.append("hist:same-destination-after-option-change"); break
+                seen[key] = (json.dumps(ig), json.dumps(al))
+            if any(o["dec"] == 1 for o in obs["conns"]) and any(o["dec"] == 0 for o in obs["conns"]): out.append("hist:both-verdicts")
         return out
 
     def shrink_candidates(self, case):
@@ -1098,6 +1220,10 @@ class Check(PropertyCheck):
                 continue
             if c.get("kind") == "hh" and c.get("full_hex") != case.get("full_hex"):
                 continue
+            if c.get("kind") == "hist":       # histories shrink by dropping steps, never by cutting a flight below its intent
+                orig = {st.get("dc_hex") for st in case["steps"]}
+                if any(st.get("dc_hex") not in orig for st in c["steps"]) or not any(st["op"] == "conn" for st in c["steps"]):
+                    continue
             yield c
 
     def neighbours(self, case, rng):
